@@ -12,7 +12,7 @@ ALL_AUTH = {"badsig", "badtext", "unknownkey", "peercp", "wrongorigin", "nosig",
 def consts(**kw):
     c = dict(Logs={"l1"}, MaxSize=3, NBranch=2, ForkAt=Sub("Fork_2"), MaxLines=6, NWitKeys=2,
              ZeroWedge=True, PadGuard=True, Olds={0, 1, 2, 3, 4}, Extras={0}, Stales={0}, Exts={0},
-             BadKinds=ALL_BAD, BadAuths={"badsig", "peercp"}, WithUnknown=True)
+             BadKinds=ALL_BAD, BadAuths={"badsig", "peercp"}, WithUnknown=True, EnvActions=set())
     c.update(kw)
     return c
 
